@@ -48,9 +48,9 @@ def literal_digits(text: str) -> int:
 
 def stated_digits(src: str) -> dict:
     """name -> digits to which the library states the value in `name = Quantity(expr, ...)`: the shortest
-    floating-point literal of the expression (integer literals next to a float literal are exact factors such as
-    2 or 1 + ..; exponents of ** are not values); the shortest integer literal if there is no float literal
-    (298 * kelvin); 9 if the expression has no literal."""
+    single floating-point literal of the expression (integer literals next to a float literal are exact factors
+    such as 2 or 1 + ..; exponents of ** are not values); the single integer literal if there is no float literal
+    (298 * kelvin); 9 if the expression has no literal or is computed from several literals."""
     tree = ast.parse(src)
     out = {}
 
@@ -69,7 +69,11 @@ def stated_digits(src: str) -> dict:
             continue
         lits = list(literals(stmt.value.args[0]))
         floats = [n for n in lits if isinstance(n.value, float)]
-        digits = [literal_digits(ast.get_source_segment(src, n)) for n in (floats or lits)]
+        # the precision a constant is STATED to is that of the one literal it is written with; a value computed
+        # from several literals (sun_luminosity * 10**(0.4 * 4.74)) states none and is held to the reference
+        names = {n.id for n in ast.walk(stmt.value.args[0]) if isinstance(n, ast.Name)} - {"units", "prefixes"}
+        single = len(floats or lits) == 1 and not names      # one literal times units, nothing else
+        digits = [literal_digits(ast.get_source_segment(src, n)) for n in (floats or lits)] if single else []
         for t in stmt.targets:
             if isinstance(t, ast.Name):
                 out[t.id] = min(min(digits), 9) if digits else 9
